@@ -560,7 +560,18 @@ func (r *run) discoverOnce(port int, timeout int, s []arrival, nresp int) (strin
 	parts = append(parts, "end")
 	var reqs [][]byte
 	if sn != nil {
-		time.Sleep(2 * time.Millisecond)
+		// the capture goroutine may lag behind the call (short timeouts, a busy machine): the request
+		// counts as not sent only when it has not shown up 300 ms later
+		for wait := 0; wait < 150; wait++ {
+			time.Sleep(2 * time.Millisecond)
+			sn.mu.Lock()
+			reqs = sn.seen
+			sn.mu.Unlock()
+			if len(reqs) > 0 {
+				break
+			}
+		}
+		time.Sleep(2 * time.Millisecond) // a second request would follow the first closely
 		sn.mu.Lock()
 		reqs = sn.seen
 		sn.mu.Unlock()
